@@ -8,6 +8,7 @@ import (
 	"fmt"
 	"io"
 	"io/fs"
+	"net/url"
 	"os"
 	"path/filepath"
 	"runtime"
@@ -789,6 +790,36 @@ func (fatalHook) OnWrite(e *zapcore.CheckedEntry, _ []zapcore.Field) {
 	}
 	simrt.Exit(1)
 }
+
+// ZapBuild replaces cfg.Build(opts...): file sinks are opened through a registered sink so that
+// the descriptor belongs to the simulated process (zap opens its sinks itself, grog never closes
+// them, the operating system does when the process ends - here: OnProcDead).
+func ZapBuild(cfg zap.Config, opts ...zap.Option) (*zap.Logger, error) {
+	if simrt.S != nil {
+		zapSinkOnce.Do(func() {
+			zap.RegisterSink("simfile", func(u *url.URL) (zap.Sink, error) {
+				return track(os.OpenFile(u.Path, os.O_WRONLY|os.O_APPEND|os.O_CREATE, 0o666))
+			})
+		})
+		route := func(paths []string) []string {
+			out := make([]string, len(paths))
+			for i, p := range paths {
+				out[i] = p
+				if p != "stdout" && p != "stderr" && !strings.Contains(p, "://") {
+					if abs, err := filepath.Abs(p); err == nil {
+						out[i] = "simfile://" + abs
+					}
+				}
+			}
+			return out
+		}
+		cfg.OutputPaths = route(cfg.OutputPaths)
+		cfg.ErrorOutputPaths = route(cfg.ErrorOutputPaths)
+	}
+	return cfg.Build(append(opts, ZapOptions()...)...)
+}
+
+var zapSinkOnce sync.Once
 
 // ZapOptions makes logger.Fatal terminate the simulated process instead of the worker.
 func ZapOptions() []zap.Option { return []zap.Option{zap.WithFatalHook(fatalHook{})} }
